@@ -102,7 +102,8 @@ Determined(v) ==
   /\ ~(IsValRecv(v["create"]) /\ v["calls"] \in {"setE", "setfail"})
   /\ ~(v["create"] = "todo" /\ v["getter"] = "get")                                      \* attributes of todo services are exempt
 
-BuildScript == <<OpGet("s1"), OpGetInContext(1, "s1"), OpGet("s1"), OpGetInContext(1, "s1"), OpGetInContext(2, "s1"), OpGetTaggedBy("t2")>>
+BuildScript == <<OpGet("s1"), OpGetInContext(1, "s1"), OpGet("s1"), OpGetInContext(1, "s1"), OpGetInContext(2, "s1"), OpGetTaggedBy("t2"),
+                 OpIsTaggedBy("s1", "t2"), OpIsTaggedBy("s2", "t2"), OpIsTaggedBy("s9", "t2"), OpCircularDeps>>
 
 -----------------------------------------------------------------------------
 (* Family "scope2"/"scope3" (C05 run time): accepted graphs of 2/3 services with every   *)
@@ -165,7 +166,8 @@ SplitFiles(c, k) ==
 TagFileSets(zz) ==
   {SplitFiles(TagCfg(pr, t2, DecSeqs[d]), k) :
       pr \in PrioAssignments(0), t2 \in SUBSET {"s2", "s3"}, d \in 1..Len(DecSeqs), k \in 1..3}
-TagScript == <<OpGetTaggedBy("t1"), OpGetTaggedBy("t2"), OpGet("c1"), OpGet("s1"), OpGetTaggedBy("t1")>>
+TagScript == <<OpGetTaggedBy("t1"), OpGetTaggedBy("t2"), OpGet("c1"), OpGet("s1"), OpGetTaggedBy("t1"),
+               OpIsTaggedBy("s1", "t1"), OpIsTaggedBy("s2", "t2"), OpIsTaggedBy("s3", "t2"), OpIsTaggedBy("c1", "t1"), OpIsTaggedBy("s1", "t3"), OpCircularDeps>>
 
 -----------------------------------------------------------------------------
 (* Family "todo" (C15): every subset of {p1, p2, s1, s2} marked todo, all histories over   *)
